@@ -957,6 +957,15 @@ def errors(source, model, wcshelper):
     else:
         source.err_a = source.err_b = ERR_MASK
 
+    # an uncertainty is either a positive finite number or the -1 marker:
+    # a singular or indefinite Fisher matrix gives nan/negative/huge standard
+    # errors, which must not leak into the catalogue
+    for name in ['err_peak_flux', 'err_a', 'err_b', 'err_pa',
+                 'err_ra', 'err_dec']:
+        val = getattr(source, name)
+        if val is None or not np.isfinite(val) or val < 0:
+            setattr(source, name, ERR_MASK)
+
     sqerr = 0
     sqerr += (source.err_peak_flux /
               source.peak_flux) ** 2 if source.err_peak_flux > 0 else 0
@@ -966,6 +975,8 @@ def errors(source, model, wcshelper):
         source.err_int_flux = ERR_MASK
     else:
         source.err_int_flux = abs(source.int_flux * np.sqrt(sqerr))
+        if not np.isfinite(source.err_int_flux):
+            source.err_int_flux = ERR_MASK
 
     return source
 
